@@ -30,6 +30,13 @@ def strip_doc(text):
     return "\n".join(l for l in text.split("\n") if not l.strip().startswith("///"))
 
 
+def de_serde(t):
+    """drop serde / clap / allow / derive attributes of an extracted struct (they are read by the contract generators)"""
+    t = re.sub(r"^\s*#\[(?:serde|clap|allow)\([^\]]*\)\]\s*\n", "", t, flags=re.M)
+    t = re.sub(r"#\[derive\([^\]]*\)\]", "", t)
+    return wrap(pub_fields(strip_doc(t)))
+
+
 def wrap(text):
     return "verus! {\n" + text + "\n}\n"
 
